@@ -114,3 +114,42 @@ Example two_routes_centre_ex :
   has_node (gml_to_its (its_to_gml ex_full true false false)) 40 = false /\
   has_node (gml_to_its (its_to_gml ex_full false false false)) 40 = true.
 Proof. vm_compute. repeat split. Qed.
+
+(** ** the same with reindex=True (default of its_to_gml): both rules are renumberings of the centre *)
+From SK Require Import proof.C10_Reindex.
+Theorem two_routes_centre_reindex (I : gr) :
+  gwfb I = true -> all_tgh I = true -> its_ok (get_rc I) = true ->
+  let c := get_rc I in
+  let fA := mapget (enum_from 1%N (node_ids c)) in
+  let fB := mapget (enum_from 1%N (node_ids (get_rc c))) in
+  let A := gml_to_its (its_to_gml I true true false) in
+  let B := gml_to_its (its_to_gml c true true false) in
+  (forall n a, label c n = Some a ->
+     let e := tg_el (tG_of a) in let q := tg_ch (tG_of a) in let q' := tg_ch (tH_of a) in
+     label A (fA n) = Some (gml_node (fA n) e q q') /\ label B (fB n) = Some (gml_node (fB n) e q q')) /\
+  (forall u v, has_node c u = true -> has_node c v = true ->
+     adj A (fA u) (fA v) = adj c u v /\ adj B (fB u) (fB v) = adj c u v) /\
+  (forall k, has_node A k = true <-> exists n, has_node c n = true /\ k = fA n) /\
+  (forall k, has_node B k = true <-> exists n, has_node c n = true /\ k = fB n).
+Proof.
+  intros Hw Ht Hok c fA fB A B. pose proof (gwfb_alltgh_is_ok I Hw Ht) as HI.
+  pose proof (its_ok_IOK _ Hok) as K.
+  assert (IOK (get_rc c)) as K'.
+  { apply (IOK_transfer c); [exact K|apply get_rc_gwf, rc_is_ok, HI|apply rc_idem_label, HI|apply rc_idem_adj, HI]. }
+  destruct (gml_roundtrip_reindex_iok c K) as (_ & A1 & A2 & A3 & _).
+  destruct (gml_roundtrip_reindex_iok (get_rc c) K') as (_ & B1 & B2 & B3 & _). cbv zeta in *.
+  change (its_to_gml c false true false) with (its_to_gml I true true false) in A1, A2, A3.
+  change (its_to_gml (get_rc c) false true false) with (its_to_gml c true true false) in B1, B2, B3.
+  fold A in A1, A2, A3. fold B in B1, B2, B3. fold fA in A1, A2, A3. fold fB in B1, B2, B3.
+  assert (forall n, has_node (get_rc c) n = has_node c n) as Hn.
+  { intros n. unfold has_node. unfold c at 1. rewrite (rc_idem_label I HI). reflexivity. }
+  split; [|split; [|split]].
+  - intros n a L. cbv zeta. split; [apply (A2 n a L)|]. apply B2. unfold c. rewrite (rc_idem_label I HI). exact L.
+  - intros u v Hu Hv. split.
+    + apply A3; apply has_node_in; assumption.
+    + rewrite B3; [unfold c; apply (rc_idem_adj I HI)| |]; apply has_node_in; rewrite Hn; assumption.
+  - intros k. rewrite A1. split; intros (n & H1 & H2); exists n; (split; [|exact H2]); apply has_node_in; exact H1.
+  - intros k. rewrite B1. split; intros (n & H1 & H2); exists n; (split; [|exact H2]).
+    + rewrite <- Hn. apply has_node_in. exact H1.
+    + apply has_node_in. rewrite Hn. exact H1.
+Qed.
